@@ -98,12 +98,17 @@ macro_rules! c07_weibull {
                 vassert!(d.inv_shape == inv, "Weibull: inv_shape is not 1/shape");
                 let x: $f = d.sample(&mut rng);
                 vassert!(rng.pos == 1, "Weibull: number of words consumed depends on the parameters");
-                vassert!(flog_n() == 2, "Weibull: expected one logarithm and one power");
-                let (a0, _, r0) = flog_get(0);
-                let (b, e, g) = flog_get(1);
-                vassert!(a0 == $oc(w0) as f64, "Weibull: logarithm is not taken of the OpenClosed01 draw");
-                vassert!(biteq64(b, -r0), "Weibull: base of the power is not -ln(u)");
-                vassert!(e == inv as f64, "Weibull: exponent is not 1/shape");
+                let g: f64 = if native() {
+                    num_traits::Float::powf(-num_traits::Float::ln($oc(w0)), inv) as f64
+                } else {
+                    vassert!(flog_n() == 2, "Weibull: expected one logarithm and one power");
+                    let (a0, _, r0) = flog_get(0);
+                    let (b, e, g) = flog_get(1);
+                    vassert!(a0 == $oc(w0) as f64, "Weibull: logarithm is not taken of the OpenClosed01 draw");
+                    vassert!(biteq64(b, -r0), "Weibull: base of the power is not -ln(u)");
+                    vassert!(e == inv as f64, "Weibull: exponent is not 1/shape");
+                    g
+                };
                 vassert!(biteq64(x as f64, (scale * (g as $f)) as f64), "Weibull: sample is not scale * g");
                 kani::cover!(g == 2.0, "g = 2");
             }
